@@ -18,6 +18,7 @@ From Flocq Require Import Raux Generic_fmt Round_NE.
 From PR Require Import Base.Num Base.RNum Base.F64 Model.Grid Model.CellIndex Model.CellSample Model.C18_run Gen.GenC18
      Proofs.Grid_real Proofs.C18_axis Proofs.C18_real Proofs.C18_gen Proofs.C18_sample.
 From PR Require Model.Bucket Model.C01_Area Model.EWA.
+From PR Require Import Base.Slice Base.Imp Model.QuickImp Gen.GenC18imp Proofs.C18_imp.
 Open Scope R_scope.
 
 (* a concrete area used by the non-vacuity examples: extent (0, 0, 8, 4), 8 x 4 cells of size 1 *)
@@ -380,4 +381,31 @@ Example C18_layout_memory_order_refuted :
     = ((10 :: 20 :: 30 :: nil) :: (40 :: 50 :: 60 :: nil) :: nil)%Z /\
   flat_apply (fun v : Z => (10 * v)%Z) (ravel_F 3) 3 ((1 :: 2 :: 3 :: nil) :: (4 :: 5 :: 6 :: nil) :: nil)%Z
     = ((10 :: 40 :: 20 :: nil) :: (50 :: 30 :: 60 :: nil) :: nil)%Z.
+Proof. vm_compute. split; reflexivity. Qed.
+
+(* ------------------------------------------------------------------ wave 3: grid.get_resampled_image (the engine of
+   ImageContainerQuick.resample) TRANSLATED from source by tools/py2coq_imp.py (Gen/GenC18imp.v; world: Model/QuickImp.v).
+   For every explicit `segments` and for the default (None: height // 500 segments above 500 rows) the function returns the
+   unsegmented image: the target rows in order, each row sampled on its own - the loop over geometry._get_slice, the
+   i == 0 / vstack accumulation and the final return neither lose, repeat nor reorder a row (uses C19's partition theorem
+   for _get_slice).  With row_image = the per-point sampling of C18_grid_image_value this puts every pixel of the resampled
+   image under the C18 clauses, whatever the segmentation.  Readings trusted by the spec are listed in GenC18imp.json. *)
+Theorem C18_get_resampled_image_code_is_model : forall {Px : Type} (height : Z) (row_image : Z -> list Px) (k : Z),
+  (1 < k -> 1 <= height)%Z ->
+  value_of (imp_get_resampled_image height row_image tt tt tt tt tt (Some k) None)
+  = COk (map row_image (zrows_from 0 (Z.to_nat height))).
+Proof. intros Px height row_image k H. rewrite (resampled_explicit height row_image k H). unfold w_whole, w_sample, w_rows, w_all. cbn. rewrite Z.sub_0_r. reflexivity. Qed.
+Print Assumptions C18_get_resampled_image_code_is_model.
+Theorem C18_get_resampled_image_default_segments_code_is_model : forall {Px : Type} (height : Z) (row_image : Z -> list Px),
+  (1 <= height < 2 ^ 40)%Z ->
+  value_of (imp_get_resampled_image height row_image tt tt tt tt tt None None)
+  = COk (map row_image (zrows_from 0 (Z.to_nat height))).
+Proof. intros Px height row_image H. rewrite (resampled_default height row_image H). unfold w_whole, w_sample, w_rows, w_all. cbn. rewrite Z.sub_0_r. reflexivity. Qed.
+Print Assumptions C18_get_resampled_image_default_segments_code_is_model.
+(* the loop really runs (3 segments over 7 rows: slices [0,3) [3,6) [6,7)); with no target row the loop body never binds
+   `result` and the generated definition answers Raised, as Python's UnboundLocalError does *)
+Example C18_get_resampled_image_ex :
+  value_of (imp_get_resampled_image 7%Z (fun i => (i :: nil)%Z) tt tt tt tt tt (Some 3%Z) None)
+    = COk ((0 :: nil) :: (1 :: nil) :: (2 :: nil) :: (3 :: nil) :: (4 :: nil) :: (5 :: nil) :: (6 :: nil) :: nil)%Z /\
+  value_of (imp_get_resampled_image 0%Z (fun i => (i :: nil)%Z) tt tt tt tt tt (Some 3%Z) None) = CRaised.
 Proof. vm_compute. split; reflexivity. Qed.
